@@ -8,6 +8,7 @@ mod e2_arp;
 mod e2_dhcp;
 mod e2_dns;
 mod e2_link;
+mod e2_malformed;
 mod e2_route;
 mod e2_sock;
 mod e2_start;
